@@ -319,7 +319,17 @@ class Engine(object):
             raise Violation(kind, msg, s.model_of(st))
         c = z3.simplify(c)
         if z3.is_true(c): return
-        r, m = s.check(st, z3.Not(c))
+        # cheap counterexample search first: any model of the path condition that falsifies c is a violation
+        # (found even when the full query pc && !c is too hard for the solver)
+        m0 = st.model
+        if m0 is None and not s.table_axioms:
+            try: m0 = s.model_of(st)
+            except (PathEnd, Inconclusive): m0 = None
+        r = None
+        if m0 is not None and z3.is_false(m0.eval(c, model_completion=True)):
+            r, m = 'sat', m0
+        if r is None:
+            r, m = s.check(st, z3.Not(c))
         if r == 'sat':
             s.record_violation(st, kind, msg, m)
             r2, m2 = s.check(st, c)
@@ -901,7 +911,14 @@ def _binprep(e, st, a, b, w, op):
 def _ptrarith(e, st, op, a, b, w):
     if a.__class__ is Ptr: a = PInt(a)
     if b.__class__ is Ptr: b = PInt(b)
-    if w == 64:
+    wa = a.w if a.__class__ is PInt else w
+    wb = b.w if b.__class__ is PInt else w
+    if wa == w and wb == w and w < 64 and op in ('add', 'sub'):
+        # low bits of addresses: differences still cancel exactly modulo 2^w
+        xa = a if a.__class__ is PInt else (a if a.__class__ is int else z3.ZeroExt(64 - w, a))
+        xb = b if b.__class__ is PInt else (b if b.__class__ is int else z3.ZeroExt(64 - w, b))
+        return pint_lin(xa, xb, 1, 1 if op == 'add' else -1, w)
+    if w == 64 and wa == 64 and wb == 64:
         if op == 'add': return pint_lin(a, b, 1, 1)
         if op == 'sub': return pint_lin(a, b, 1, -1)
         if op == 'xor' and b.__class__ is int and b == mask(64):      # ~x = -x - 1
@@ -1136,8 +1153,12 @@ def icmp(e, st, pred, w, a, b):
             d = pint_lin(a if ca is not Ptr else PInt(a), b if cb is not Ptr else PInt(b), 1, -1)
             if d.__class__ is not PInt:
                 return icmp(e, st, pred, 64, d, 0) if pred in ('eq', 'ne') else icmp(e, st, {'ult': 'slt', 'ule': 'sle', 'ugt': 'sgt', 'uge': 'sge'}.get(pred, pred), 64, d, 0)
-        if ca is PInt: a = a.p; ca = a.__class__
-        if cb is PInt: b = b.p; cb = b.__class__
+        def plain(x):
+            return x.w == 64 and len(x.co) == 1 and x.co[0][1] == 1
+        if ca is PInt:
+            a = a.p if plain(a) else _mat(e, st, Undef(a.w), a.w); ca = a.__class__
+        if cb is PInt:
+            b = b.p if plain(b) else _mat(e, st, Undef(b.w), b.w); cb = b.__class__
     if ca in (Ptr, FnPtr) or cb in (Ptr, FnPtr):
         if ca is int: a = Ptr(0, a); ca = Ptr
         if cb is int: b = Ptr(0, b); cb = Ptr
@@ -1206,7 +1227,7 @@ def h_trunc(e, st, fr, ins):
     if c is int: r = v & ((1 << tw) - 1)
     elif c is Undef: r = Undef(tw, v.mem)
     elif c is PInt:
-        r = Undef(tw)     # low bits of an address: not modelled (indeterminate)
+        r = PInt(co=v.co, off=v.off, w=tw) if tw >= 16 else Undef(tw)     # low bits of an address: kept symbolic so that differences cancel
     else:
         r = e.S(z3.Extract(tw - 1, 0, v))
         if tw == 1: r = e.S(r == 1)
